@@ -83,10 +83,13 @@ ASSUMPTIONS = ['predicates are wires of known bitwidth (a `with` on a wire wider
                'Python with-protocol / exception unwinding is exercised by the malformed stream only; a PyrtlError '
                'caught around a single |= inside the block is specified as "the statement has no effect" and the '
                'remaining program is modelled',
-               'translator tie (py/genfrag_C07.py -> Gen/CondRules.v, Props/C07Rules.v): the conflict condition, the '
-               'width guard, the select conjuncts / pred_set polarities, the default selection and the select steps '
-               'of both _finalize folds are translated from the source; the statement skeleton of the state machine '
-               'is shape-checked fail-closed (any other edit there reports the tie broken until the model is re-validated)']
+               'translator tie (py/genfrag_C07.py -> Gen/CondRules.v, Props/C07Rules.v): translated from the current '
+               'source are the conflict condition, the width guard, the WHOLE of _current_select (and_with_possible_none, '
+               'between_otherwise_and_current incl. its last-otherwise index and slices, the select conjuncts and recorded '
+               'polarities; C07_rule_current_select: on every stack it returns the (select, pred_set) of the model), the '
+               'default selection and the select steps of both _finalize folds; only the statement ORDER of the state '
+               'machine (_push/_pop_condition, _build, _check_and_add_pred_set, __enter__/__exit__, the loop skeletons) is '
+               'shape-checked fail-closed (any other edit there reports the tie broken until the model is re-validated)']
 
 
 # ----------------------------------------------------------------------------------------
